@@ -4,7 +4,7 @@
   EngineCompactProps}).  Model: Nervus.Model.{Csr,Engine} (`compact` = Db::compact = Db::checkpoint:
   build_segment_from_runs, CsrSegment::persist, property sinking, manifest + checkpoint, runs cleared).
 -/
-import Nervus.Proofs.EngineCompactProps
+import Nervus.Proofs.EngineCompactMap
 namespace Nervus.Props.C05
 open Nervus Nervus.Storage
 open Nervus.GraphSpec (TxOp Op)
@@ -61,6 +61,26 @@ theorem C05_partial (s : Engine) (hs : compactSafe s = true) :
   · funext n; unfold Engine.nodeLabels; rw [hid.1]
   · funext n; unfold Engine.resolveExternal; rw [hid.1]
   · funext x; unfold Engine.lookupInternal; rw [hid.1]
+
+/-- no node property key held by a run is already in the store (no key is sunk twice) -/
+def freshNodeKeys (s : Engine) : Bool :=
+  s.runs.all (fun r => r.nprops.all (fun p => (lastNode s.store p.1.1 p.1.2).isNone))
+
+/-- **C05 (proved part, whole-map read)**: from every `compactSafe` state in which no node property
+    key of the runs is already in the store, `node_properties` (the whole map) answers the same value
+    for every key before and after `compact` — the complement of the finding
+    `C05-whole-map-read-returns-oldest-sunk-value`.  (Relationship maps: same mechanism, not proved.) -/
+theorem C05_partial_whole_map (s : Engine) (hs : compactSafe s = true) (hf : freshNodeKeys s = true) (n k : Nat) :
+    ((s.compact Cfg.current).nodeProps n).lookup k = (s.nodeProps n).lookup k := by
+  simp only [compactSafe, Bool.and_eq_true, List.all_eq_true, List.isEmpty_iff, Bool.or_eq_true,
+    bne_iff_ne, ne_eq] at hs
+  simp only [freshNodeKeys, List.all_eq_true, Option.isNone_iff_eq_none] at hf
+  obtain ⟨hruns, hroot⟩ := hs
+  exact compact_nodeProps _ s (fun r hr => (hruns r hr).1.2)
+    (by intro h0; rcases hroot with h | h
+        · exact absurd h0 h
+        · exact h)
+    hf n k
 
 /-- **CSR construction lemma** (shared with C30): for EVERY edge list, the built and persisted
     segment answers `neighbors` / `incoming_neighbors` with exactly the edges of that source /
